@@ -13,7 +13,7 @@ EXPLANATION = (
     "length, loop contracts), ascon_aead_check_tag, the nonce helpers, the masked-word toolkit and masked keys (share counts 3 "
     "and 4: this found the out-of-bounds store in ascon_masked_word_x3_zero, repaired), the HKDF expansion incl. the "
     "exhausted-counter zero fill, HMAC key handling around the block boundaries, the AEAD one-shot and incremental entry "
-    "points, the zero-length/null-buffer L1 cases, and the file-name helpers of asconcrypt as main() calls them (this found "
+    "points, the SIV, ISAP and masked one-shot entry points at empty and block-straddling lengths, the zero-length/null-buffer L1 cases, and the file-name helpers of asconcrypt as main() calls them (this found "
     "the strip_suffix underflow/overflow, repaired). Every other enforced group of C01-C15 carries the same checks."
 )
 ASSUMPTIONS = [
@@ -48,6 +48,10 @@ def groups(tier):
     gs += [g for g in common.aead_l2_groups("c12", ["C12"], "encrypt", alias_variants=()) if "ascon80pq" in g.name]
     gs += [g for g in common.aead_l2_groups("c12", ["C12"], "decrypt", alias_variants=()) if "ascon128a" in g.name]
     gs += [g for g in common.crypt_groups("c12", ["C12"], "encrypt", "quick", seed=seed) if g.name.endswith(".len0")]
+    # SIV / ISAP / masked one-shot entry points: exactly sized buffers, null AD for adlen == 0, all pointer and bounds checks
+    gs += [g for g in common.siv_groups("c12", ["C12"], "quick") if ".ad0.m0" in g.name or ".ad9.m17" in g.name or ".ad17.m33" in g.name]
+    gs += [g for g in common.isap_groups("c12", ["C12"], "quick") if "128a" in g.name and ".ad9.m17" in g.name]
+    gs += [g for g in common.masked_aead_groups("c12", ["C12"], "quick") if ".ad0.m0" in g.name]
     gs.append(Group("c12.app.asconcrypt_names", ["C12"], "harness/h_app_names.c", "h_app_names", [],
                     defs=["VERIF_NAME_MAX=48", "HAVE_GETOPT", "HAVE_GETOPT_H", "HAVE_ISATTY", "HAVE_UNISTD_H"], unwind=52, timeout=900,
                     functions=["strip_suffix", "is_encrypted_filename"], kind="bounded",
